@@ -11,7 +11,8 @@
      mode_loop margin P lib sp   propagate_and_optimize_mode, P it m = receiver figures of mode m after the propagation
                            `it` = (baud rate, offset);  explore lib sp = the (propagation, mode) pairs in the code's order
      eval1 margin P it m   Pass (metric > OSNR + margin, STRICT) | Fail | NoSnr | Raise
-     loop_st step ...      the same loop with the state of the path threaded through the propagations *)
+     loop_st step ...      the same loop with the state of the path threaded through the propagations;
+                           code_step = restore the designed gains, then propagate on the path objects *)
 From Coq Require Import QArith Sorted.
 From Verif Require Import Prelude Model.Verdict Proofs.Verdict.
 Open Scope Q_scope.
@@ -112,29 +113,32 @@ Theorem mode_loop_spec : forall margin P lib sp,
 Proof. exact Proofs.Verdict.mode_loop_first_decisive. Qed.
 Print Assumptions mode_loop_spec.
 
-(* the exploration order: exactly the fitting modes, grouped by propagation; propagations strictly decreasing in
-   (baud rate, offset) — each (baud, offset) value once —, modes of a propagation non-increasing in (bit rate, offset) *)
+(* the exploration order: exactly the fitting modes, each under the propagation made with ITS baud rate and ITS offset;
+   propagations strictly decreasing in (baud rate, offset) — each value once —, modes of a propagation non-increasing in
+   (bit rate, offset) *)
 Theorem exploration_order : forall lib sp,
   (forall it m, In (it, m) (explore lib sp) <->
-     In it (iters lib sp) /\ In m lib /\ m_baud m == fst it /\ fits sp m = true) /\
+     In it (iters lib sp) /\ In m lib /\ m_baud m == fst it /\ m_off m == snd it /\ fits sp m = true) /\
   (forall it, In it (iters lib sp) -> exists m, In m lib /\ fits sp m = true /\ it = (m_baud m, m_off m)) /\
   (forall m, In m lib -> fits sp m = true -> exists it, In it (iters lib sp) /\ iter_eqb (m_baud m, m_off m) it = true) /\
   StronglySorted (fun a b => iter_gtb a b = true) (iters lib sp) /\
-  (forall br, StronglySorted (fun a b => key_gtb b a = false) (modes_of lib sp br)).
+  (forall it, StronglySorted (fun a b => key_gtb b a = false) (modes_of lib sp it)).
 Proof.
   intros lib sp. split; [apply Proofs.Verdict.explore_in|]. split; [apply Proofs.Verdict.iters_in|].
   split; [apply Proofs.Verdict.iters_repr|]. split; [apply Proofs.Verdict.iters_sorted | apply Proofs.Verdict.modes_of_sorted].
 Qed.
 Print Assumptions exploration_order.
 
-(* a selected mode fits the spacing and clears its threshold strictly; every fitting mode with a higher baud rate, and
-   every fitting mode of the same baud rate with a higher (bit rate, offset), was evaluated before and failed *)
+(* a selected mode fits the spacing, was judged on the propagation of its own (baud rate, offset) and clears its
+   threshold strictly; every fitting mode with a higher (baud rate, offset), and every fitting mode of the same
+   propagation with a higher (bit rate, offset), was evaluated before and failed *)
 Theorem mode_loop_selected : forall margin P lib sp it m,
   mode_loop margin P lib sp = Selected it m ->
-  In m lib /\ fits sp m = true /\ m_baud m == fst it /\ In it (iters lib sp) /\ eval1 margin P it m = Pass /\
-  (forall m', In m' lib -> fits sp m' = true -> fst it < m_baud m' ->
+  In m lib /\ fits sp m = true /\ m_baud m == fst it /\ m_off m == snd it /\ In it (iters lib sp) /\
+  eval1 margin P it m = Pass /\
+  (forall m', In m' lib -> fits sp m' = true -> iter_gt (m_baud m', m_off m') it ->
      exists it', In it' (iters lib sp) /\ iter_eqb (m_baud m', m_off m') it' = true /\ eval1 margin P it' m' = Fail) /\
-  (forall m', In m' lib -> fits sp m' = true -> m_baud m' == fst it -> key_gtb m' m = true ->
+  (forall m', In m' lib -> fits sp m' = true -> m_baud m' == fst it -> m_off m' == snd it -> key_gtb m' m = true ->
      eval1 margin P it m' = Fail).
 Proof. exact Proofs.Verdict.mode_loop_selected. Qed.
 Print Assumptions mode_loop_selected.
@@ -182,31 +186,38 @@ Theorem pass_is_strict : forall margin P it m,
 Proof. intros. split; [apply Proofs.Verdict.eval1_pass | apply Proofs.Verdict.eval1_fail]. Qed.
 Print Assumptions pass_is_strict.
 
-(* The deciding propagation is the selected mode's own (baud, offset) when the modes of a baud rate share their
-   offset.  Without that guard the statement is FALSE of the code: the loop evaluates every mode of a baud rate on the
-   propagation of every offset of that baud rate (finding C13-mode-judged-on-sibling-offset). *)
-Theorem selected_own_offset_partial : forall margin P lib sp it m,
-  (forall a b, In a lib -> In b lib -> m_baud a == m_baud b -> m_off a == m_off b) ->
+(* every mode is judged on the propagation made with its own baud rate and its own power offset (fix 1495bc6e) *)
+Theorem selected_own_offset : forall margin P lib sp it m,
   mode_loop margin P lib sp = Selected it m -> iter_eqb it (m_baud m, m_off m) = true.
 Proof. exact Proofs.Verdict.selected_own_offset. Qed.
-Print Assumptions selected_own_offset_partial.
-(* full statement (false):  forall margin P lib sp it m, mode_loop margin P lib sp = Selected it m ->
-                            iter_eqb it (m_baud m, m_off m) = true *)
-Theorem selected_own_offset_refuted : exists margin P lib sp it m,
-  mode_loop margin P lib sp = Selected it m /\ iter_eqb it (m_baud m, m_off m) = false /\
-  eval1 margin P (m_baud m, m_off m) m = Fail.
-Proof.
-  exists 0, w2_P, w2_lib, 50, (32, 4), (mkM 1 32 (-2) 100 (75 # 2) 20 (mkT [] [] [])).
-  destruct w2_foreign_offset as [A B]. split; [exact A|]. split; [reflexivity | exact B].
-Qed.
-Print Assumptions selected_own_offset_refuted.
+Print Assumptions selected_own_offset.
+Theorem explored_own_offset : forall lib sp it m, In (it, m) (explore lib sp) -> iter_eqb it (m_baud m, m_off m) = true.
+Proof. exact Proofs.Verdict.explored_own_offset. Qed.
+Print Assumptions explored_own_offset.
 
 (* ---- the loop with the amplifier state made explicit ---- *)
-(* the code as it is shares the path (and the clamped amplifier gains) between the propagations of the loop:
-   "the figures of every propagation are those of a fresh propagation" is FALSE (finding F6) ... *)
-(* full statement (false):  forall p ls, leaky_runs p ls = fresh_runs p ls   and
-                            forall load_of conv margin lib sp p, fst (mode_loop_st (leaky_step load_of conv) margin lib sp p)
-                                                                  = mode_loop margin (fresh_provider p load_of conv) lib sp *)
+(* The code (fix 6c7139d6) writes the designed gain of every amplifier of the path back at the top of every
+   (baud rate, offset) iteration and then propagates on the path objects.  For every designed path, library, load
+   assignment and figure conversion: the decision is the specification-level one on the figures of FRESH propagations,
+   and the path handed back to the caller is in the state of the last propagation made, started from the designed
+   gains — the clamp of the deciding iteration only, never that of an earlier one. *)
+Theorem mode_loop_indep : forall load_of conv margin lib sp designed,
+  fst (mode_loop_st (code_step designed load_of conv) margin lib sp designed) =
+    mode_loop margin (fresh_provider designed load_of conv) lib sp /\
+  forall pth, final_state designed load_of (fst (mode_loop_st (code_step designed load_of conv) margin lib sp designed)) = Some pth ->
+    snd (mode_loop_st (code_step designed load_of conv) margin lib sp designed) = pth.
+Proof. exact Proofs.Verdict.mode_loop_code. Qed.
+Print Assumptions mode_loop_indep.
+(* what makes the restore sound: propagations only change amplifier gains, so writing the designed gains back gives
+   the designed path again *)
+Theorem restore_gives_designed : forall d l, restore d (fst (run_load d l)) = d.
+Proof. intros d l. apply Proofs.Verdict.restore_shape. apply Proofs.Verdict.run_load_shape. Qed.
+Print Assumptions restore_gives_designed.
+
+(* WHY THE RESTORE IS NEEDED — a theorem about the hypothetical loop WITHOUT it (`leaky_step` / `leaky_runs`: what the
+   code did before 6c7139d6), not about the code: with the clamp persisting between iterations the figures of a later
+   propagation differ from a fresh one and the decision can flip (witness: NO_FEASIBLE_MODE instead of a selection).
+   corpus/C13/f06_*.json replay the witness on gnpy and must pass. *)
 Theorem mode_loop_fresh_state_needed_refuted :
   (exists p ls, leaky_runs p ls <> fresh_runs p ls) /\
   (exists load_of conv margin lib sp p,
@@ -217,18 +228,17 @@ Proof.
   - exists w_load, w_conv, 0, w_lib, 75, w_path. destruct w_decision_differs as [A B]. rewrite A, B. discriminate.
 Qed.
 Print Assumptions mode_loop_fresh_state_needed_refuted.
-(* ... it holds under the guard that no propagation changes the state of the path (no amplifier saturates) ... *)
+(* ... the hypothetical loop would only be right where no propagation changes the state of the path *)
 Theorem leaky_is_fresh_without_saturation : forall p ls,
   (forall l, In l ls -> fst (run_load p l) = p) -> leaky_runs p ls = fresh_runs p ls.
 Proof. exact Proofs.Verdict.leaky_eq_fresh_if_stable. Qed.
 Print Assumptions leaky_is_fresh_without_saturation.
-(* ... and unconditionally on the repaired model, where every propagation starts from the designed state: the decision
-   is the specification-level one on fresh figures and the path is left as designed *)
-Theorem mode_loop_indep : forall load_of conv margin lib sp designed,
-  mode_loop_st (repaired_step load_of conv) margin lib sp designed =
-  (mode_loop margin (fresh_provider designed load_of conv) lib sp, designed).
-Proof. exact Proofs.Verdict.mode_loop_indep. Qed.
-Print Assumptions mode_loop_indep.
+(* the same witness through the loop of the code: selection, and only the last clamp on the returned path *)
+Example ex_code_loop_on_witness :
+  fst (mode_loop_st (code_step w_path w_load w_conv) 0 w_lib 75 w_path) = Selected (32, 0) (mkM 1 32 0 100 (75 # 2) 400 (mkT [] [] [])) /\
+  snd (mode_loop_st (code_step w_path w_load w_conv) 0 w_lib 75 w_path) = fst (run_load w_path (w_load (32, 0))) /\
+  fst (run_load w_path (w_load (32, 0))) = w_path /\ fst (run_load w_path (w_load (64, 8))) <> w_path.
+Proof. split; [vm_compute; reflexivity|]. split; [vm_compute; reflexivity|]. split; [vm_compute; reflexivity | vm_compute; discriminate]. Qed.
 
 (* ---- non-vacuity ---- *)
 Definition ex_rx : receiver := [receive1 32 (1 # 1000) (2 # 1000) (3 # 1000) (4 # 1000); receive1 64 (1 # 500) (1 # 400) (1 # 300) (1 # 200)].
@@ -262,9 +272,9 @@ Definition ex_lib : list mode :=
    mkM 2 32 3 200 50 16 ex_tab; mkM 3 44 0 300 50 30 (mkT [] [] [])].
 Definition ex_P : provider := fun it m => Some (mkF [if Qeq_bool (snd it) 3 then 21 else 19; 22] [1000; 3000] [5; 5] [1; 0]).
 Example ex_loop :
-  map (fun x => (fst x, m_id (snd x))) (explore ex_lib 50) = [((44, 0), 3%Z); ((32, 3), 2%Z); ((32, 3), 0%Z); ((32, 0), 2%Z); ((32, 0), 0%Z)] /\
+  map (fun x => (fst x, m_id (snd x))) (explore ex_lib 50) = [((44, 0), 3%Z); ((32, 3), 2%Z); ((32, 0), 0%Z)] /\
   (exists m, mode_loop 2 ex_P ex_lib 50 = Selected (32, 3) m /\ m_id m = 2%Z) /\
-  (exists m, mode_loop 5 ex_P ex_lib 50 = Selected (32, 3) m /\ m_id m = 0%Z) /\
+  (exists m, mode_loop 5 ex_P ex_lib 50 = Selected (32, 0) m /\ m_id m = 0%Z) /\
   (exists m, mode_loop 10 ex_P ex_lib 50 = NoFeasibleMode (32, 0) m /\ m_id m = 0%Z) /\
   mode_loop 2 ex_P ex_lib 30 = NoBaudrate.
 Proof.
